@@ -32,11 +32,14 @@ MCDom(t) ==
       [] t = "LLVector3d" -> {MV("vec", <<a, Zero, b>>) : a \in R64, b \in R64}
       [] t = "LLVector4" -> {MV("vec", <<a, b, Zero, a>>) : a \in R, b \in R}
       [] t = "LLQuaternion" -> {MV("vec", <<Zero, Zero, Zero>>), MV("vec", <<Half, NHalf, Half>>), MV("vec", <<Zero, Half, Zero>>)}
-St == [ty |-> ty, orig |-> orig, phase |-> phase, carried |-> carried, xml |-> xml, result |-> result]
+MCHistTypes == {"U32", "U64", "IPADDR", "LLVector3", "LLQuaternion", "S32", "Variable"}
+St == [ty |-> ty, orig |-> orig, phase |-> phase, carried |-> carried, xml |-> xml, result |-> result,
+       prof |-> prof, hist |-> hist, memo |-> memo]
 MInit == Init /\ PrintT(ToJson([init |-> St]))
 MSerialize == Serialize /\ PrintT(ToJson([src |-> St, act |-> [n |-> "Serialize"], dst |-> St']))
 MXmlHop == XmlHop /\ PrintT(ToJson([src |-> St, act |-> [n |-> "XmlHop"], dst |-> St']))
 MDeserialize == Deserialize /\ PrintT(ToJson([src |-> St, act |-> [n |-> "Deserialize"], dst |-> St']))
-MNext == MSerialize \/ MXmlHop \/ MDeserialize
+MNextMessage(p) == NextMessage(p) /\ PrintT(ToJson([src |-> St, act |-> [n |-> "NextMessage", p |-> p], dst |-> St']))
+MNext == MSerialize \/ MXmlHop \/ MDeserialize \/ \E p \in Profs : MNextMessage(p)
 MSpec == MInit /\ [][MNext]_vars
 ====
